@@ -63,7 +63,15 @@ func AppendString(buf []byte, s string, delim byte) []byte {
 				if start < i {
 					buf = append(buf, s[start:i]...)
 				}
-				buf = append(buf, `\ufffd`...)
+				if cnt == 1 {
+					// Not UTF-8, keep the byte so that parsing the output
+					// gives back the same string.
+					buf = append(buf, `\x`...)
+					buf = append(buf, hex[(b>>4)&0x0f])
+					buf = append(buf, hex[b&0x0f])
+				} else {
+					buf = append(buf, `\ufffd`...)
+				}
 				start = i + cnt
 				skip = start
 			default:
